@@ -442,7 +442,17 @@ def run_trade_case(case: Dict[str, Any], res: ShardResult) -> None:
                 m.cancel()
                 await asyncio.gather(m, return_exceptions=True)
 
-        loop.run_until_complete(main())
+        loop.max_spins = 60_000
+        try:
+            loop.run_until_complete(main())
+        except vclock.Livelock as ex:
+            # the aggregator keeps the event loop busy without ever sleeping: virtual time cannot advance (in real
+            # time it would spin a core and emit nothing on schedule)
+            res.evaluations += 1
+            res.violate(Violation("C19", "aggregator_busy_loop",
+                                  f"duration={dur}s flush_delay={fd}: RealTimeTradesToBar.main() stopped yielding to the clock ({ex})",
+                                  scenario=case))
+            return
 
     res.evaluations += 1
     res.count("trade_streams")
